@@ -80,6 +80,17 @@ where
         };
 
         if let Some(old_memo) = opt_old_memo {
+            // The previous value was assigned by another query with `specify`, and that query no
+            // longer assigns it. The inputs of this function's own body say nothing about when
+            // that happened, so readers of the assigned value must see the computed value as
+            // changed now (unless it is equal and gets backdated below).
+            if matches!(
+                old_memo.header.origin(),
+                crate::zalsa_local::QueryOriginRef::Assigned(_)
+            ) {
+                completed_query.revisions.changed_at = zalsa.current_revision();
+            }
+
             // If the new value is equal to the old one, then it didn't
             // really change, even if some of its inputs have. So we can
             // "backdate" its `changed_at` revision to be the same as the
